@@ -6,7 +6,7 @@ written psABI range table x boundary and random values: a value that must fit ha
 and (data fields) written exactly, a value that cannot fit has to be rejected; values on which
 GNU ld and lld differ / the psABI is silent are excluded and counted. (b) End-to-end: one-relocation
 assembly objects (`.reloc`), the value set through an absolute `--defsym` symbol, a self-relative
-addend (PC-relative types) or a calibrated addend (TLS / GOT types), linked by wild, GNU ld and
+addend (PC-relative types) or a calibrated addend (TLS / GOT / PLT types), linked by wild, GNU ld and
 ld.lld (x86-64) or wild and ld.lld + the psABI table (AArch64). Both references accept => wild must
 accept and write the same field bytes; both reject => wild must reject with a diagnostic; references
 disagree => inconclusive. The references also calibrate the table of layer (a): a contradiction is a
@@ -91,7 +91,7 @@ X86 = [
     ("R_X86_64_32S", 4, "abs", None), ("R_X86_64_64", 8, "abs", None),
     ("R_X86_64_PC8", 1, "pcself", None), ("R_X86_64_PC16", 2, "pcself", None),
     ("R_X86_64_PC32", 4, "pcself", None), ("R_X86_64_PC64", 8, "pcself", None),
-    ("R_X86_64_PLT32", 4, "pcself", None),
+    ("R_X86_64_PLT32", 4, "func", None),
     ("R_X86_64_TPOFF32", 4, "tls", None), ("R_X86_64_GOTPCREL", 4, "got", None),
 ]
 AARCH64 = [
@@ -109,7 +109,7 @@ AARCH64 = [
     ("R_AARCH64_TLSLE_MOVW_TPREL_G0", 4, "tls", "movz x9, #0"),
     ("R_AARCH64_TLSLE_MOVW_TPREL_G1", 4, "tls", "movz x9, #0, lsl #16"),
     ("R_AARCH64_TLSLE_ADD_TPREL_HI12", 4, "tls", "add x9, x9, #0, lsl #12"),
-    ("R_AARCH64_TLSLE_ADD_TPREL_LO12", 4, "tls", "add x9, x9, #0"),
+    # R_AARCH64_TLSLE_ADD_TPREL_LO12 (checked form) is not implemented by ld.lld 14: no reference
 ]
 PINNED = [("x86_64", "R_X86_64_8", 200), ("x86_64", "R_X86_64_16", 40000), ("x86_64", "R_X86_64_64", I64MAX),
           ("aarch64", "R_AARCH64_ABS64", I64MAX), ("aarch64", "R_AARCH64_MOVW_PREL_G0", 65536),
@@ -123,7 +123,9 @@ def source(arch, name, mode, insn, addend, x):
     body = []
     if arch == "aarch64":
         body.append(".balign 4")
-    sym = {"abs": "v", "pcself": "fld", "tls": "tv", "got": "gv"}[mode]
+    sym = {"abs": "v", "pcself": "fld", "tls": "tv", "got": "gv", "func": "fn"}[mode]
+    if mode == "abs":
+        body.append(".globl v")
     a = x if mode == "pcself" else addend
     expr = sym if a == 0 else f"{sym}{a:+d}"
     body += [".globl fld", "fld:", f".reloc fld, {name}, {expr}"]
@@ -140,21 +142,68 @@ def make_source(arch, tab_nbytes, name, mode, insn, addend, x):
     if mode == "got":
         s += [".data", ".globl gv", "gv:", " .quad 2"]
     s += [".text", ".globl _start", "_start:", " ret"]
+    if mode == "func":
+        s += [".globl fn", ".type fn,%function", "fn:", " ret"]
     return "\n".join(s) + "\n"
+
+
+MARK = 0x1122334455667788
+_tmpl_lock = threading.Lock()
+_tmpl = {}
+
+
+def object_for(ctx, arch, nbytes, name, mode, insn, addend, x, tag):
+    """Object with one relocation whose addend is `addend` (pcself: x). Assembled once per type with a
+    marker addend; the r_addend bytes of the RELA entry are then patched (no compiler per value)."""
+    tgt = A64 if arch == "aarch64" else None
+    a = x if mode == "pcself" else addend
+    if mode == "abs":
+        return tools.assemble(ctx, make_source(arch, nbytes, name, mode, insn, 0, 0), target=tgt)
+    key = (arch, name)
+    with _tmpl_lock:
+        data = _tmpl.get(key)
+    if data is None:
+        t = tools.assemble(ctx, make_source(arch, nbytes, name, mode, insn, MARK, MARK), target=tgt)
+        data = open(t, "rb").read()
+        if data.count(MARK.to_bytes(8, "little")) != 1:
+            raise HarnessError(f"template object for {name}: addend marker not found exactly once")
+        with _tmpl_lock:
+            _tmpl[key] = data
+    d = ctx.scratch.dir("o", tag)
+    path = os.path.join(d, "a.o")
+    with open(path, "wb") as f:
+        f.write(data.replace(MARK.to_bytes(8, "little"), (a & ((1 << 64) - 1)).to_bytes(8, "little")))
+    return path
 
 
 def linkers(arch):
     return ("ld", "lld", "wild") if arch == "x86_64" else ("lld", "wild")
 
 
-def do_link(ctx, arch, kind, obj, x, mode, tag, nread=8):
-    d = ctx.scratch.dir("l", tag + "-" + kind)
+# Self-validation only: a stand-in for wild that is known to break the property (GNU ld told to
+# keep going after relocation overflows: it "accepts" and truncates).
+FAKE_WILD = None
+
+
+def do_link(ctx, arch, kind, obj, x, mode, tag, nread=8, fake=None):
+    d = ctx.scratch.dir("l", tag + "-" + kind + ("-fake" if fake else ""))
     out = tools.fresh(os.path.join(d, "out"))
-    args = (["-m", "aarch64elf"] if (kind == "wild" and arch == "aarch64") else []) + [obj, "-o", out, "--no-gc-sections"]
+    args = (["-m", "aarch64elf"] if (kind == "wild" and arch == "aarch64" and not fake) else []) + [
+        obj, "-o", out, "--no-gc-sections"]
+    # one thread each: the machine is shared and these links are tiny (no effect on the property)
+    if kind == "wild" and not fake:
+        args += ["--threads=1", "--no-fork"]
+    elif kind == "lld":
+        args += ["--threads=1"]
     if mode == "abs":
         args.append(f"--defsym=v=0x{x & ((1 << 64) - 1):x}")
-    r = tools.link(kind, args, timeout=120)
-    cmd = " ".join([tools.linker_path(kind)] + args)
+    if fake and kind == "wild":
+        from vlib.common import run as _run
+        r = _run(fake + args, timeout=120)
+        cmd = " ".join(fake + args)
+    else:
+        r = tools.link(kind, args, timeout=120)
+        cmd = " ".join([tools.linker_path(kind)] + args)
     if r.timed_out:
         return ("timeout", None, cmd, r)
     text = r.errtext()
@@ -186,21 +235,25 @@ class Calib:
 
     def get(self, ctx, arch, name, nbytes, mode, insn, kind, tab):
         key = (arch, name, kind)
-        with self.lock:
+        with self.lock:     # calibrations are few; serialising them keeps their files private
             if key in self.x0:
                 return self.x0[key]
-        src = make_source(arch, nbytes, name, mode, insn, 0, 0)
-        obj = tools.assemble(ctx, src, target=A64 if arch == "aarch64" else None)
-        st, b, cmd, r = do_link(ctx, arch, kind, obj, 0, mode, f"cal-{name}", nread=nbytes + 4)
-        val = None
-        if st == "accept":
-            if insn:
-                val = decode_insn_value(name, int.from_bytes(b[:4], "little"))
+            cname, cinsn = name, insn
+            if arch == "aarch64" and mode == "tls":
+                # the TP offset of `tv` is the same for every TLSLE type; LO12 holds it completely
+                cname, cinsn = "R_AARCH64_TLSLE_ADD_TPREL_LO12_NC", "add x9, x9, #0"
+            obj = object_for(ctx, arch, nbytes, cname, mode, cinsn, 0, 0, f"cal-{name}-{kind}")
+            st, b, cmd, r = do_link(ctx, arch, kind, obj, 0, mode, f"cal-{name}", nread=nbytes + 4)
+            val = None
+            if st == "accept":
+                if insn:
+                    val = decode_insn_value(cname, int.from_bytes(b[:4], "little"))
+                else:
+                    val = sext(int.from_bytes(b[:nbytes], "little"), 8 * nbytes)
             else:
-                val = sext(int.from_bytes(b[:nbytes], "little"), 8 * nbytes)
-        with self.lock:
+                ctx.note(f"calibration-link-failed:{name}:{kind}:{st}")
             self.x0[key] = val
-        return val
+            return val
 
 
 def decode_insn_value(name, w):
@@ -223,7 +276,7 @@ def values_for(tab, r, n_random):
     n = 8 * tab.nbytes if tab.nbytes else None
     v = set()
     for b in tab.bps + [tab.acc[0], tab.acc[1], tab.rej[0], tab.rej[1]]:
-        for d in (-1, 0, 1):
+        for d in (-1, 0):
             v.add(b + d * tab.align)
     v.update([-1 * tab.align, 0, tab.align, I64MIN, I64MAX, I64MAX - tab.align + 1 if tab.align > 1 else I64MAX - 1])
     span = max(tab.rej[1] - tab.rej[0], 4)
@@ -241,7 +294,21 @@ def values_for(tab, r, n_random):
     return sorted(set(out))
 
 
-def judge(ctx, calib, table, arch, name, nbytes, mode, insn, x, contradictions):
+class Recorder:
+    """Stands in for ctx during self-validation: collects what judge() would have reported."""
+    def __init__(self, ctx):
+        self.scratch, self.sigs = ctx.scratch, []
+
+    def held(self, *a, **k):
+        pass
+
+    inconclusive = note = held
+
+    def violation(self, sig, *a, **k):
+        self.sigs.append(sig)
+
+
+def judge(ctx, calib, table, arch, name, nbytes, mode, insn, x, contradictions, fake=None):
     tab = table[(arch, name)]
     case = f"{arch}:{name}:{x}"
     cls = tab.cls(x)
@@ -249,26 +316,25 @@ def judge(ctx, calib, table, arch, name, nbytes, mode, insn, x, contradictions):
     res = {}
     for kind in linkers(arch):
         addend = 0
-        if mode in ("tls", "got"):
+        if mode in ("tls", "got", "func"):
             x0 = calib.get(ctx, arch, name, nbytes, mode, insn, kind, tab)
             if x0 is None:
                 res[kind] = ("no-calibration", None, "", None)
                 continue
             addend = x - x0
             if not I64MIN <= addend <= I64MAX:
-                res[kind] = ("no-calibration", None, "", None)
-                continue
+                ctx.inconclusive("value not reachable through a 64-bit addend (calibrated mode)")
+                return
         src = make_source(arch, nbytes, name, mode, insn, addend, x)
-        try:
-            obj = tools.assemble(ctx, src, target=tgt)
-        except HarnessError:
-            ctx.inconclusive("assembler rejected the generated relocation expression")
-            return
+        obj = object_for(ctx, arch, nbytes, name, mode, insn, addend, x, f"{name}-{x & ((1 << 64) - 1):x}-{kind}")
         res[kind] = do_link(ctx, arch, kind, obj, x, mode, f"{name}-{x & ((1 << 64) - 1):x}",
-                            nread=nbytes + 4) + (src, obj)
+                            nread=nbytes + 4, fake=fake) + (src, obj)
     refs = [k for k in linkers(arch) if k != "wild"]
     rst = [res[k][0] for k in refs]
     if any(s not in ("accept", "reject") for s in rst):
+        for k in refs:
+            if res[k][0] not in ("accept", "reject"):
+                ctx.note(f"reference-unusable:{name}:{k}:{res[k][0]}")
         ctx.inconclusive("reference linker crashed, timed out or could not be calibrated")
         return
     want = tab.verdict(x)
@@ -302,6 +368,9 @@ def judge(ctx, calib, table, arch, name, nbytes, mode, insn, x, contradictions):
             ctx.inconclusive("reference output does not hold the intended value (generator)")
             return
     wst, wb, wcmd, wr = res["wild"][:4]
+    if wst in ("timeout", "no-calibration"):
+        ctx.inconclusive("wild timed out or could not be calibrated")
+        return
     files = {"a.s": res["wild"][4], "a.o": res["wild"][5],
              "commands.txt": "\n".join(res[k][2] for k in linkers(arch)) + "\n",
              "wild.stderr": wr.errtext() if wr else ""}
@@ -333,8 +402,9 @@ def judge(ctx, calib, table, arch, name, nbytes, mode, insn, x, contradictions):
         ctx.note(f"e2e:{arch}:{name}:{expect}ed-by-all")
         return
     with _seen_lock:
-        first = sig not in _seen
-        _seen.add(sig)
+        first = fake is not None or sig not in _seen
+        if fake is None:
+            _seen.add(sig)
     if first:
         ctx.violation(sig, desc, case=case, files=files, info={"arch": arch, "reloc": name, "value": x, "mode": mode})
     else:
@@ -396,6 +466,23 @@ def main(ctx):
     counts, mism, _ = run_units(args, timeout=3600)
     inproc(ctx, counts, mism, args)
     del wild
+
+    # ---- self-validation on every run: both layers must see a planted fault ---------------------
+    rec = Recorder(ctx)
+    ent = [t for t in X86 if t[0] == "R_X86_64_PC32"][0]
+    judge(rec, calib, table, "x86_64", ent[0], ent[1], ent[2], ent[3], 1 << 31, [],
+          fake=[tools.LD_BFD, "--noinhibit-exec"])
+    if "reloc=R_X86_64_PC32:value-class=>=2^31:accepted" not in rec.sigs:
+        raise HarnessError(f"self-validation: a linker that truncates PC32 overflows was not detected ({rec.sigs})")
+    ctx.note_set("self-validation:faults-detected", "e2e:ld --noinhibit-exec as the linker under test")
+    for mut, want in (("range_pc32_unsigned", "reloc=R_X86_64_PC32:value-class=>=2^31:accepted"),
+                      ("range_32s_rejects_negative", "reloc=R_X86_64_32S:value-class=-2^31..-1:rejected"),
+                      ("range_abs32_truncates", "reloc=R_AARCH64_ABS32:value-class=2^31..2^32-1:wrong-bytes")):
+        _, mm, _ = run_units(["range", ctx.seed, 300], extra_env={"UNITS_MUTANT": mut})
+        if want not in {m["sig"] for m in mm}:
+            raise HarnessError(f"self-validation: mutant {mut} was not detected "
+                               f"({[m['sig'] for m in mm if mut.split('_')[1] in m['sig'].lower()][:5]})")
+        ctx.note_set("self-validation:faults-detected", "inproc:" + mut)
 
 
 def inproc(ctx, counts, mism, args):
